@@ -13,6 +13,7 @@ let () =
     | "heap" -> D_heap.eval, one D_heap.oracle
     | "serde" -> D_serde.eval, one D_serde.oracle
     | "solver" | "faults" -> D_solver.eval, D_solver.oracles
+    | "solverb" -> D_solverb.eval, D_solverb.oracles
     | "report" | "collapse" -> D_report.eval, one D_report.oracle
     | _ -> failwith "unknown domain" in
   let n = ref 0 in
